@@ -145,11 +145,11 @@ M('c18-disconnect-bypasses-gate', 'C18', 'R3', WS,
 M('c18-disconnect-flag-never-set', 'C18', 'R3', WS,
   """                self.client_disconnected = True
                 self.client_disconnected_code = received_event.get(""",
-  """                self.client_disconnected_code = received_event.get(""")
+  """                self.client_disconnected_code = received_event.get(""", also=('C17',))
 M('c18-pump-continues-after-disconnect', 'C18', 'R3', WS,
   "        while not self.client_disconnected:\n            received_event", "        while True:\n            received_event")
 M('c18-disconnect-test-wrong-type', 'C18', 'R3', WS,
-  "            if received_event['type'] == EventType.WS_DISCONNECT:", "            if received_event['type'] == EventType.WS_RECEIVE:")
+  "            if received_event['type'] == EventType.WS_DISCONNECT:", "            if received_event['type'] == EventType.WS_RECEIVE:", also=('C17',))
 
 # ------------------------------------------------------------------ R4
 M('c18-stop-after-validation', 'C18', 'R4', WS,
